@@ -188,7 +188,8 @@ def run_pipeline(case):
     T, N = states.shape
     j = jumps_or_none(tr, case.get('residence', 0))
     info = {'labels': [case['lattice']['family']], 'site_frac': case['sites']['frac'], 'cell': case['lattice']['family'] + '/' + case['lattice']['orient']}
-    check_all(tr, j, states, case['sites']['labels'], M, N, T, case['time_step'], case['temperature'], info, n_parts=case.get('n_parts', 2), bounds=case.get('bounds'))
+    for _pass in range(2):  # every observable once more on the same objects, after all the others were computed (stale or pruned caches)
+        check_all(tr, j, states, case['sites']['labels'], M, N, T, case['time_step'], case['temperature'], info, n_parts=case.get('n_parts', 2), bounds=case.get('bounds'))
     nolabels = len(set(case['sites']['labels']))
     if j is not None:
         info['labels'].append('has-jumps')
@@ -213,7 +214,8 @@ def run_history(case):
                      sites=sitesys.sites(case), events=events, states=states.copy(), inner_states=inner.copy())
     j = jumps_or_none(tr, case.get('residence', 0))
     info = {'labels': [case['lattice']['family']], 'site_frac': case['sites']['frac'], 'cell': case['lattice']['family'] + '/' + case['lattice']['orient']}
-    check_all(tr, j, states, case['sites']['labels'], M, N, T, case['time_step'], case['temperature'], info, n_parts=case.get('n_parts', 2), bounds=case.get('bounds'))
+    for _pass in range(2):
+        check_all(tr, j, states, case['sites']['labels'], M, N, T, case['time_step'], case['temperature'], info, n_parts=case.get('n_parts', 2), bounds=case.get('bounds'))
     if j is not None:
         info['labels'].append('has-jumps')
     return {'nontrivial': j is not None and 'event-touching-nosite' in info['labels'] and len(set(case['sites']['labels'])) >= 2, 'labels': sorted(set(info['labels']))}
